@@ -133,6 +133,56 @@ Section HM3.
   Lemma filled_len_abs : forall ns, length (filter nfilled ns) = length (abs_of ns).
   Proof. intros. unfold ProofsHM2.abs_of. rewrite map_length. reflexivity. Qed.
 
+  (* ---- the in-place compaction loop computes the stable compaction *)
+  Lemma cmp_move_rif : forall n i j ns,
+    cmp_move K V n i j ns = vec_rif_loop node (fun e => negb (nfilled e)) n i j ns.
+  Proof.
+    induction n; intros; cbn [cmp_move vec_rif_loop]; [reflexivity|].
+    destruct (sget i ns); cbn [rbind]; [|reflexivity].
+    destruct (nfilled a); cbn [negb]; [|apply IHn].
+    destruct (sset j a ns); cbn [rbind]; [apply IHn|reflexivity].
+  Qed.
+
+  Lemma cmp_skip_spec : forall rest j,
+    j <= cmp_skip K V rest j /\ cmp_skip K V rest j - j <= length rest /\
+    filter nfilled (firstn (cmp_skip K V rest j - j) rest) = firstn (cmp_skip K V rest j - j) rest.
+  Proof.
+    induction rest as [|a rest IH]; intros j; cbn [cmp_skip].
+    - rewrite Nat.sub_diag. cbn. split; [lia|split; [lia|reflexivity]].
+    - destruct (nfilled a) eqn:E.
+      + destruct (IH (S j)) as (A & B & C). split; [lia|]. split; [cbn [length]; lia|].
+        replace (cmp_skip K V rest (S j) - j) with (S (cmp_skip K V rest (S j) - S j)) by lia.
+        cbn [firstn filter]. rewrite E, C. reflexivity.
+      + rewrite Nat.sub_diag. cbn. split; [lia|split; [lia|reflexivity]].
+  Qed.
+
+  Lemma filter_negb_negb : forall (l : list node), filter (fun e => negb (negb (nfilled e))) l = filter nfilled l.
+  Proof. intros. apply filter_ext. intros a. apply negb_involutive. Qed.
+
+  Lemma hm_compact_loop_ok : forall ns,
+    hm_compact_loop K V kdflt vdflt ns = Ok (hm_compact K V kdflt vdflt ns, length (filter nfilled ns)).
+  Proof.
+    intros ns. unfold hm_compact_loop.
+    destruct (cmp_skip_spec ns 0) as (_ & B & C). rewrite Nat.sub_0_r in B, C.
+    set (j0 := cmp_skip K V ns 0) in *.
+    rewrite cmp_move_rif.
+    destruct (vec_rif_ok node (fun e => negb (nfilled e)) (length ns - j0) j0 j0 ns ltac:(lia) ltac:(lia)) as (d' & -> & L & F).
+    cbn [rbind fst snd]. rewrite filter_negb_negb in *.
+    assert (firstn (length ns - j0) (skipn j0 ns) = skipn j0 ns) as E by (apply firstn_all2; rewrite skipn_length; lia).
+    rewrite E in *.
+    assert (filter nfilled ns = firstn j0 ns ++ filter nfilled (skipn j0 ns)) as EN.
+    { rewrite <- C, <- filter_app, firstn_skipn. reflexivity. }
+    assert (j0 + length (filter nfilled (skipn j0 ns)) = length (filter nfilled ns)) as EJ.
+    { rewrite EN, app_length, firstn_length. lia. }
+    rewrite EJ in *.
+    assert (firstn (length (filter nfilled ns)) d' = filter nfilled ns) as EF.
+    { rewrite F. symmetry. exact EN. }
+    pose proof (filter_len_le node nfilled ns) as LE.
+    rewrite sfill_ok by (rewrite L; lia). cbn [rbind]. f_equal. f_equal.
+    unfold hm_compact, overwrite. rewrite EF, repeat_length.
+    rewrite skipn_all2 by (rewrite L; lia). rewrite app_nil_r. reflexivity.
+  Qed.
+
   Lemma rehash_nodes2 : forall ns sz nc,
     sz = length (filter nfilled ns) -> (sz < nc \/ (nc = 0 /\ sz = 0)) ->
     let n0 := length ns in
@@ -206,14 +256,15 @@ Section HM3.
       - destruct (Nat.leb_spec nc0 (hsize m)); repeat split; try lia.
       - assert (bc = 0) by lia. assert (nc0 = 0) by (unfold nc0; rewrite H0; rewrite Nat.mul_0_l; apply ceilidiv_0; lia).
         repeat split; try lia. }
-    rewrite <- Hsize, Nat.eqb_refl.
     assert (hsize m < nc \/ (nc = 0 /\ hsize m = 0)) as Hcase by (destruct (Nat.eq_dec bc 0); [right; apply Hn4; assumption|left; apply Hn3; lia]).
     pose proof (rehash_nodes2 (hnodes m) (hsize m) nc Hsize Hcase) as R2. cbn zeta in R2.
     set (nodes1 := if (nc <? length (hnodes m)) && (0 <? length (hnodes m)) && (0 <? nc)
                    then hm_compact K V kdflt vdflt (hnodes m) else hnodes m) in *.
     assert ((if (nc <? length (hnodes m)) && (0 <? length (hnodes m)) && (0 <? nc)
-             then Ok (hm_compact K V kdflt vdflt (hnodes m)) else Ok (hnodes m)) = Ok nodes1) as ->.
-    { unfold nodes1. destruct ((nc <? length (hnodes m)) && (0 <? length (hnodes m)) && (0 <? nc)); reflexivity. }
+             then (r <- hm_compact_loop K V kdflt vdflt (hnodes m) ;; if snd r =? hsize m then Ok (fst r) else Trap TrapCompact)
+             else Ok (hnodes m)) = Ok nodes1) as ->.
+    { unfold nodes1. destruct ((nc <? length (hnodes m)) && (0 <? length (hnodes m)) && (0 <? nc)); [|reflexivity].
+      rewrite hm_compact_loop_ok. cbn [rbind fst snd]. rewrite <- Hsize, Nat.eqb_refl. reflexivity. }
     cbn [rbind].
     set (nodes2 := srealloc zero_node nc nodes1) in *.
     destruct R2 as (Habs2 & Hlen2 & Hpos2).
